@@ -17,6 +17,8 @@ def run(ctx):
     ctx.rule('R04c', 'every bound computed in Chunker::next is relative to the open chunk: the minimum-size skip and the search window subtract cur_chunk_len, the skip is also limited by the input still unconsumed')
     ctx.guarded('R04a', NEXT, lambda: r04(ctx))
     ctx.guarded('R04c', NEXT, lambda: r04c(ctx))
+    ctx.rule('R04d', 'cur_chunk_len tracks the buffered chunk: on every path through Chunker::next the bytes appended to chunkbuf equal the increase of cur_chunk_len, at every chunk creation and at every return (so the minimum-size skip, the search window and the forced cut, which are all computed from cur_chunk_len, speak about the chunk actually emitted)')
+    ctx.guarded('R04d', NEXT, lambda: length_tracking(ctx, 'R04d'))
 
 
 def r04(ctx):
@@ -83,7 +85,15 @@ def r04(ctx):
                     if se == ('const', 0, 'usize') and sb is not None and exb not in a.cfg.reach([sb]) and sb not in a.cfg.reach([exb]):
                         continue
                     ok = False
-    ctx.check(ok, 'R04b', NEXT, 'consumed=appended', a.loc(ex[0]) if ex else '-', 'exactly data[0..consume_len] is appended to the chunk buffer and consume_len is what next reports as consumed')
+    why = None
+    if not ok:
+        # several append sites / early returns: decide it path by path
+        from . import lenacct
+        r = lenacct.Acct(a, 'cur_chunk_len', 'chunkbuf', consumed_index=1).run()
+        ok = r.npaths >= 1 and not r.cissues and not [i for i in r.issues if i[0] == 'unknown']
+        if r.cissues:
+            why = 'the count Chunker::next reports as consumed is not the number of input bytes it buffered: %s' % '; '.join(m[2] for m in r.cissues)[:300]
+    ctx.check(ok, 'R04b', NEXT, 'consumed=appended', a.loc(ex[0]) if ex else '-', 'exactly data[0..consume_len] is appended to the chunk buffer and consume_len is what next reports as consumed', why)
     # who builds chunks
     builders = set()
     for p, b in F.bodies.items():
@@ -149,6 +159,9 @@ def r04c(ctx):
             u = paths.additive_update(a, st)
             if u and u[0] in cur_keys and guard and a.cfg.must_pass(b, via_edges=guard):
                 ups.append((b, si, u[2]))
+    # the same skip written on several mutually exclusive paths (an early return that counts the skip itself) is one skip
+    if len(ups) > 1 and all(flow.eqv(u[2], ups[0][2]) for u in ups) and not any(x[0] != y[0] and y[0] in a.cfg.reach_after([x[0]]) for x in ups for y in ups):
+        ups = ups[:1]
     if ctx.check(len(ups) == 1, 'R04c', NEXT, 'skip site', '-', 'one minimum-size skip (cur_chunk_len += ..) under a cur_chunk_len < threshold guard (threshold field: %s)' % sorted(set(thresholds))):
         b, si, e = ups[0]
         is_thr = lambda z: z[0] == 'field' and z[2] in thresholds
@@ -211,3 +224,20 @@ def r04c(ctx):
         if clamped:
             fc = edges_where(a, lambda op, l, r: op == 'Eq' and is_cur(l) and flow.mentions(r, is_max))
     ctx.check(bool(fc), 'R04c', NEXT, 'forced cut', '-', 'a forced cut is decided on (advance + cur_chunk_len) >= maximum_chunk')
+
+
+def length_tracking(ctx, rid):
+    """C04c / C15c: a fast path that buffers input without counting it (or emits a chunk whose length was never compared
+    with the maximum) keeps `consumed == appended` intact and still breaks the size bounds."""
+    from . import lenacct
+    a = an(ctx.F.body(NEXT))
+    r = lenacct.Acct(a, 'cur_chunk_len', 'chunkbuf').run()
+    ctx.floor(rid, 'paths through Chunker::next evaluated', r.npaths, 4)
+    ctx.floor(rid, 'length obligations (chunk creations and returns on those paths)', r.checked, 6)
+    mism = [i for i in r.issues if i[0] == 'mismatch']
+    unk = [i for i in r.issues if i[0] != 'mismatch']
+    ctx.check(not mism, rid, NEXT, 'tracked length', a.loc(mism[0][1]) if mism else '-', 'on all %d paths the bytes buffered equal cur_chunk_len at every chunk creation and return' % r.npaths,
+              ('cur_chunk_len does not track the buffered chunk: %s (L0 = both at entry); the size bounds are computed from cur_chunk_len, so the emitted chunk can exceed the maximum or be cut at a position that depends on the call partition'
+               % '; '.join(sorted({m[2] for m in mism}))[:420]) if mism else None)
+    ctx.check(not unk, rid, NEXT, 'evaluable', a.loc(unk[0][1]) if unk else '-', 'every buffer operation on the paths is understood by the length evaluator',
+              ('cannot establish that cur_chunk_len tracks the buffer: %s' % '; '.join(sorted({m[2] for m in unk}))[:300]) if unk else None)
